@@ -187,8 +187,12 @@ var msgFrags = []fragGen{
 		return Frag{Class: "id-other-pending", Variant: "v0", Msgs: []string{foreignFrame(m, "@PID@")}, Foreign: true, PendingMay: true}
 	},
 	func(rng *rand.Rand, m string, _ int) Frag {
-		id, i := pick(rng, []string{"@ID@.5", "null", `{"v":@ID@}`, "[@ID@]", "true", `"x@ID@"`, "1e400", `""`})
+		id, i := pick(rng, []string{"null", `{"v":@ID@}`, "[@ID@]", "true", `"x@ID@"`, "1e400", `""`})
 		return Frag{Class: "id-mistyped", Variant: fmt.Sprintf("v%d", i), Msgs: []string{foreignFrame(m, id)}, Foreign: true}
+	},
+	func(rng *rand.Rand, m string, _ int) Frag {
+		id, i := pick(rng, []string{"@ID@.5", "@ID@.25", "@ID@.999"})
+		return Frag{Class: "id-fractional", Variant: fmt.Sprintf("v%d", i), Msgs: []string{foreignFrame(m, id)}, Foreign: true}
 	},
 	func(rng *rand.Rand, m string, _ int) Frag {
 		// the same value in another JSON type / spelling: a lenient match is tolerated by the oracle
@@ -293,8 +297,13 @@ var sseRawFrags = []fragGen{
 		return Frag{Class: "multi-line-data", Variant: "v0", Raw: []byte("event: message\ndata: {\"jsonrpc\":\"2.0\",\ndata: \"method\":\"notifications/verif\",\ndata: \"params\":{\"n\":0}}\n\n")}
 	},
 	func(rng *rand.Rand, m string, _ int) Frag {
-		s, i := pick(rng, []string{"id: 7\n\n", "id\n\n", "id: \x00\n\n", "id: 1\nid: 2\nid: 3\n\n"})
+		s, i := pick(rng, []string{"id: 7\n\n", "id\n\n", "id: 1\nid: 2\nid: 3\n\n", "id: " + strings.Repeat("i", 5000) + "\n\n"})
 		return Frag{Class: "id-only-event", Variant: fmt.Sprintf("v%d", i), Raw: []byte(s)}
+	},
+	func(rng *rand.Rand, m string, _ int) Frag {
+		// WHATWG: an id containing U+0000 is ignored; control characters are not valid in an HTTP header value
+		s, i := pick(rng, []string{"id: \x00\n\n", "id: ev\x01\x7f\ndata: " + validNotif + "\n\n", "id: a\x00b\n\n"})
+		return Frag{Class: "event-id-control-char", Variant: fmt.Sprintf("v%d", i), Raw: []byte(s)}
 	},
 	func(rng *rand.Rand, m string, _ int) Frag {
 		return Frag{Class: "bom", Variant: "v0", Raw: []byte("\xEF\xBB\xBF"), EatsNext: true}
@@ -366,10 +375,10 @@ func (f framer) frame(msg string, rng *rand.Rand) []byte {
 		return []byte(msg)
 	default:
 		pre := ""
-		if rng != nil && rng.Intn(2) == 0 {
+		if rng != nil && coin(2) {
 			pre = "event: message\n"
 		}
-		if rng != nil && rng.Intn(2) == 0 {
+		if rng != nil && coin(2) {
 			pre += fmt.Sprintf("id: ev-%d\n", rng.Intn(1000))
 		}
 		return []byte(pre + "data: " + msg + "\n\n")
@@ -400,7 +409,7 @@ func (s *Script) take(fr Frag) {
 }
 
 func probeMethod(rng *rand.Rand) string {
-	if rng.Intn(3) == 0 {
+	if coin(3) {
 		return "tools/list"
 	}
 	return "tools/call"
@@ -427,7 +436,7 @@ func jsonHeaders(ct string) []string {
 
 func okJSON(body []Part, rng *rand.Rand) *PostResp {
 	mode := "cl"
-	if rng.Intn(2) == 0 {
+	if coin(2) {
 		mode = "chunked"
 	}
 	return &PostResp{Status: "200 OK", Headers: jsonHeaders("application/json"), Mode: mode, Body: body}
@@ -493,7 +502,8 @@ func httpFaults(method string, sse bool) []func(rng *rand.Rand) (string, string,
 			return "content-length-too-long", "v0", &PostResp{Status: "200 OK", Headers: jsonHeaders(ct), Mode: "cl", CLDelta: 1 + rng.Intn(500), Body: body()}, true
 		},
 		func(rng *rand.Rand) (string, string, *PostResp, bool) {
-			return "content-length-too-short", "v0", &PostResp{Status: "200 OK", Headers: jsonHeaders(ct), Mode: "cl", CLDelta: -(1 + rng.Intn(20)), Body: body()}, false
+			// an event stream cut inside its trailing line ends still holds the complete data line
+			return "content-length-too-short", "v0", &PostResp{Status: "200 OK", Headers: jsonHeaders(ct), Mode: "cl", CLDelta: -(1 + rng.Intn(20)), Body: body()}, sse
 		},
 		func(rng *rand.Rand) (string, string, *PostResp, bool) {
 			s, i := pick(rng, []string{"RAW:HTTP/1.1 abc OK", "RAW:garbage garbage garbage", "RAW:HTTP/9.9 200 OK", "RAW:\x00\x01\x02", "RAW:HTTP/1.1 200"})
@@ -610,7 +620,7 @@ func buildersFor(kind string) []builder {
 				add(e.costly, func(rng *rand.Rand) Script {
 					m := probeMethod(rng)
 					f := e.g(rng, m, fr.overhead)
-					s := Script{Kind: kind, Placement: pl, ProbeMethod: m, WithHandler: rng.Intn(2) == 0}
+					s := Script{Kind: kind, Placement: pl, ProbeMethod: m, WithHandler: coin(2)}
 					s.take(f)
 					frag := fr.parts(f, rng)
 					ans := Part{B: fr.frame(validAnswer(m, false), rng)}
@@ -632,11 +642,11 @@ func buildersFor(kind string) []builder {
 					default:
 						body = frag
 					}
-					if rng.Intn(3) == 0 && len(body) > 1 {
+					if coin(3) && len(body) > 1 {
 						body[0].Ms = 5
 					}
 					s.Post = okSSE(body)
-					s.Post.NoTerm = rng.Intn(3) == 0
+					s.Post.NoTerm = coin(3)
 					return s
 				})
 			}
@@ -659,7 +669,7 @@ func buildersFor(kind string) []builder {
 			v := v
 			add(false, func(rng *rand.Rand) Script {
 				m := probeMethod(rng)
-				s := Script{Kind: kind, Placement: "answer-framing", Class: v.class, Variant: "v0", ProbeMethod: m, HasValid: true, WithHandler: rng.Intn(2) == 0}
+				s := Script{Kind: kind, Placement: "answer-framing", Class: v.class, Variant: "v0", ProbeMethod: m, HasValid: true, WithHandler: coin(2)}
 				s.Post = okSSE([]Part{{B: []byte(v.mk(validAnswer(m, false)))}})
 				return s
 			})
@@ -672,7 +682,7 @@ func buildersFor(kind string) []builder {
 				if n < 65536 {
 					cl = "frame<64KiB"
 				}
-				s := Script{Kind: kind, Placement: "answer-is-big", Class: cl, Variant: fmt.Sprintf("line=%d", n), ProbeMethod: m, HasValid: true, Costly: n >= 8<<20, WithHandler: rng.Intn(2) == 0}
+				s := Script{Kind: kind, Placement: "answer-is-big", Class: cl, Variant: fmt.Sprintf("line=%d", n), ProbeMethod: m, HasValid: true, Costly: n >= 8<<20, WithHandler: coin(2)}
 				va := validAnswer(m, true)
 				s.Post = okSSE([]Part{{B: []byte("data: " + va + "\n\n"), Pad: n - 6 - (len(va) - len("@PAD@"))}})
 				return s
@@ -973,6 +983,20 @@ func buildersFor(kind string) []builder {
 	return bs
 }
 
+// Structural choices (probe method, optional event:/id: lines, handler registered or not, chunk terminator, ...)
+// are a fixed function of (builder, cycle, position) and NOT of the seed: the seed varies fragment contents
+// only, so that the set of (placement, class) signatures a defect produces is the same for every seed.
+var curBI, curCycle, coinK int
+
+func coin(n int) bool {
+	coinK++
+	h := uint32(curBI+1)*2654435761 ^ uint32(curCycle+1)*40503 ^ uint32(coinK)*2246822519
+	h ^= h >> 15
+	h *= 2654435761
+	h ^= h >> 13
+	return h%uint32(n) == 0
+}
+
 var allKinds = []string{"streamable-json", "streamable-sse", "streamable-get", "legacy-sse", "stdio"}
 
 // scriptsFor returns the n scripts of a kind for this seed.
@@ -989,6 +1013,7 @@ func scriptsFor(kind string, n int, rngFor func(label string) *rand.Rand, thorou
 				continue
 			}
 			rng := rngFor(fmt.Sprintf("c07|%s|%d|%d", kind, cycle, bi))
+			curBI, curCycle, coinK = bi, cycle, 0
 			s := b.mk(rng)
 			s.Idx = len(out)
 			out = append(out, s)
